@@ -5037,7 +5037,10 @@ class Entity(object, metaclass=EntityMeta):
                     continue
 
         if unpickling:
-            new_vals = avdict
+            # Json and array values were pickled as plain dicts / lists: wrap them again, so that in-place changes are tracked
+            new_vals = {attr: attr.converters[0].validate(val, obj)
+                              if isinstance(val, (dict, list)) and not attr.reverse else val
+                              for attr, val in avdict.items()}
             new_dbvals = {attr: attr.converters[0].val2dbval(val, obj) if not attr.reverse else val
                                 for attr, val in avdict.items()}
         else:
